@@ -262,7 +262,7 @@ Lanes(i) == CASE Mode = "full1" -> Dom(i[1][1]) [] Mode = "chain1" -> {0} [] Mod
 Layouts == {"c", "s2", "r"}
 I1(ns, ls) == {<<<<n>>, <<l>>>> : n \in ns, l \in ls}
 INd(lenss, layss) == {<<a, b>> : a \in lenss, b \in layss}
-Inits1Q == I1(0..5, Layouts)
+Inits1Q == I1(0..4, Layouts)
 Inits1T == I1(0..6, Layouts)
 InitsChainQ == I1({4}, Layouts) \cup I1({1}, {"s2"})
 InitsChainT == I1(0..5, Layouts)
@@ -366,7 +366,7 @@ UnellipsifyOK ==
              /\ ~HasNone(op) => UnellR(op, nd) = Expand(op, nd)
 
 \* typed and object path are modelled to agree (they share the per-dimension function)
-PathsAgree == Stepped => \A p1, p2 \in Paths(op) : ImplObs(prev, op, p1, FALSE, FALSE) = ImplObs(prev, op, p2, FALSE, FALSE)
+PathsAgree == (Stepped /\ "object" \in Paths(op)) => ImplObs(prev, op, "object", FALSE, FALSE) = ImplObs(prev, op, "typed", FALSE, FALSE)
 
 \* expected to be REFUTED (MemSlice_refute.cfg): the code as it is equals the reference
 ImplAgrees == Stepped => ImplObs(prev, op, "typed", FALSE, FALSE) = Obs(ApplyRef(prev, op))
